@@ -1,10 +1,11 @@
 """C12 Idempotent parsing; raw / parsed / piecewise-parsed schemas behave alike."""
 import ast
+import re
 
 from sa.loader import AnalysisError, norm, walk_local
 from sa.cfg import cfg_of
 from sa.callgraph import bind_args
-from .common import analysis, names_in, resolve_local, value_sources, assigned_values
+from .common import true_facts, analysis, names_in, resolve_local, value_sources, assigned_values
 
 PROP = "C12"
 TECHNIQUE = "def-use provenance per public entry point (schema reaching a worker comes from parse_schema with the very, shared, name table handed to the worker); CFG dominance of the early-return copy of the embedded name table; data-dependence of the header schema on the name table filled by the parse; who-may-drop discipline for the reader schema"
@@ -119,6 +120,18 @@ def run(ctx):
     ok = any(any(norm(t.ast) == f"'__named_schemas' in {sparam}" and lab == "false" for (t, lab) in cfg.guards_of(cfg.node_of(n))) for n in legacy)
     ctx.check("C12.R2", "the marker-only arm re-parses", ok, ps.where(), "parse_schema: legacy arm", "no re-parse on the arm where the embedded table is missing")
 
+    # the members of a top-level union are schemas of their own: each goes through the hint-aware entry
+    from sa.pathsum import summaries as _summ
+
+    list_paths = [s_ for s_ in _summ(cfg, max_paths=2000) if s_.kind == "return" and s_.expr is not None and f"isinstance({sparam}, list)" in s_.facts and not any(x in s_.facts for x in ("_force", "expand", "_force or expand"))]
+    if not list_paths:
+        ctx.unrecognised("C12.R2", "parse_schema: top-level union", ps.where(), "no return path for a list schema found")
+    for s_ in list_paths:
+        calls = [c for c in ast.walk(s_.expr) if isinstance(c, ast.Call) and isinstance(c.func, ast.Name)]
+        direct = [c for c in calls if c.func.id == "_parse_schema"]
+        own = [c for c in calls if c.func.id == ps.name]
+        ctx.check("C12.R2", "a top-level union: every member is parsed through parse_schema itself (already parsed members hand over their name tables)", bool(own) and not direct, ps.where(s_.node), f"parse_schema: list arm returns `{s_.text[:90]}`", "members that were parsed separately carry the definitions they refer to in their embedded table: parsed by the inner worker they are taken as raw schemas and the references are unknown")
+
     # ---- R3 header closure ---------------------------------------------------------------------------
     ctx.rule("C12.R3", "header schema strips both markers and is computed from the schema and the name table filled by the parse; definitions are inlined recursively", floor=3)
     dumps = [n for n in walk_local(gw.node) if isinstance(n, ast.Call) and norm(n.func) == "json.dumps"]
@@ -216,6 +229,31 @@ def run(ctx):
         tests = {norm(t.comparators[0]) for f in group for n in ast.walk(f.node) if isinstance(n, (ast.If, ast.IfExp)) for t in ast.walk(n.test) if isinstance(t, ast.Compare) and len(t.ops) == 1 and isinstance(t.ops[0], (ast.In, ast.NotIn))}
         ok = bool(adds & tests)
         ctx.check("C12.R3", "each name is defined once in the header (set of names defined so far)", ok, group[0].where(), f"{names}: defined-so-far bookkeeping", "a type reachable twice would be defined twice (redefined named type on read)")
+        # ... and on every path: a definition (dict schema of a named kind) is never handed back before its name is
+        # recorded, except as the reference that replaces a second definition
+        for f in group:
+            fcfg = cfg_of(f)
+            sp = f.pos_params[0]
+            add_nodes = [fcfg.node_of(n) for n in ast.walk(f.node) if isinstance(n, ast.Expr) and isinstance(n.value, ast.Call) and isinstance(n.value.func, ast.Attribute) and n.value.func.attr == "add" and isinstance(n.value.func.value, ast.Name) and norm(n.value.func.value) in adds]
+            named_tests = [t for t in fcfg.nodes if t.kind == "test" and "NAMED_TYPES" in norm(t.ast)]
+            if not add_nodes:
+                continue
+            if not named_tests:
+                ctx.unrecognised("C12.R3", f"{f.qualname}: a definition's name is recorded before it is returned", f.where(), "no test of the schema kind against NAMED_TYPES found")
+                continue
+            skip = set()
+            for t in named_tests:
+                neg = isinstance(t.ast, ast.Compare) and isinstance(t.ast.ops[0], ast.NotIn)
+                for (m, lab) in t.succ:
+                    if lab == ("true" if neg else "false"):
+                        skip.add((t, m, lab))
+            for r in [n for n in walk_local(f.node) if isinstance(n, ast.Return) and n.value is not None]:
+                facts = true_facts(fcfg, fcfg.node_of(r))
+                if f"isinstance({sp}, dict)" not in facts:
+                    continue
+                already = any(re.fullmatch(r".+ in (%s)" % "|".join(map(re.escape, adds)), x) for x in facts)
+                ok = already or fcfg.must_pass(fcfg.entry, fcfg.node_of(r), add_nodes, skip_edges=skip)
+                ctx.check("C12.R3", f"{f.qualname}: a definition's name is recorded before it is returned", ok, f.where(r), f"{f.qualname}: `{norm(r)[:60]}` reachable for a named type without recording its name", "a named type handed back without being recorded as defined is inlined again at its next reference: the header defines it twice and the file cannot be read")
     _r4(ctx, a)
     _shared(ctx)
 
